@@ -941,3 +941,118 @@ pub fn run_main(check: impl Fn(&'static str, usize, &[MDef], &mut Vec<Failure>),
     });
     println!("{}", out);
 }
+
+// ------------------------------------------------------------------------------------------------ running the real CLI
+pub mod cli {
+    use std::io::Read;
+    use std::path::Path;
+    use std::sync::Mutex;
+    use std::sync::atomic::{AtomicUsize, Ordering};
+
+    pub struct Outcome {
+        pub status: Option<i32>,
+        pub stderr: String,
+        pub timed_out: bool,
+    }
+    impl Outcome {
+        pub fn panicked(&self) -> bool {
+            self.stderr.contains("panicked at ") || self.stderr.contains("stack overflow")
+        }
+        /// `check` accepted the project (the CLI exits 0 even after a panic in its async task, so the marker is used)
+        pub fn check_passed(&self) -> bool {
+            self.stderr.contains("'check' finished")
+        }
+    }
+    /// write `files` under `dir` (emptied first) and run `<cli> <command>` there
+    pub fn run(cli: &str, dir: &Path, files: &[(String, String)], command: &str) -> Outcome {
+        let _ = std::fs::remove_dir_all(dir);
+        std::fs::create_dir_all(dir).unwrap();
+        for (f, text) in files {
+            let p = dir.join(f);
+            std::fs::create_dir_all(p.parent().unwrap()).unwrap();
+            std::fs::write(p, text).unwrap();
+        }
+        let mut child = match std::process::Command::new(cli)
+            .arg(command)
+            .current_dir(dir)
+            .env("RUST_BACKTRACE", "0")
+            .stdout(std::process::Stdio::null())
+            .stderr(std::process::Stdio::piped())
+            .spawn()
+        {
+            Ok(c) => c,
+            Err(e) => return Outcome { status: None, stderr: format!("harness: cannot run the CLI: {e}"), timed_out: false },
+        };
+        let mut err = child.stderr.take().unwrap();
+        let reader = std::thread::spawn(move || {
+            let mut s = String::new();
+            let _ = err.read_to_string(&mut s);
+            s
+        });
+        let t0 = std::time::Instant::now();
+        let mut timed_out = false;
+        let status = loop {
+            match child.try_wait() {
+                Ok(Some(st)) => break st.code(),
+                Ok(None) => {
+                    if t0.elapsed().as_secs() >= 20 {
+                        let _ = child.kill();
+                        let _ = child.wait();
+                        timed_out = true;
+                        break None;
+                    }
+                    std::thread::sleep(std::time::Duration::from_millis(2));
+                }
+                Err(_) => break None,
+            }
+        };
+        Outcome { status, stderr: reader.join().unwrap_or_default(), timed_out }
+    }
+    /// run `f(index, worker_dir)` for every index in 0..n on all cores; results in index order
+    pub fn par_map<T: Send>(n: usize, tmp: &Path, f: impl Fn(usize, &Path) -> T + Sync) -> Vec<T> {
+        let next = AtomicUsize::new(0);
+        let out: Mutex<Vec<(usize, T)>> = Mutex::new(vec![]);
+        let workers = std::thread::available_parallelism().map(|n| n.get()).unwrap_or(4).min(16);
+        std::thread::scope(|sc| {
+            for w in 0..workers {
+                let (next, out, f) = (&next, &out, &f);
+                let dir = tmp.join(format!("w{w}"));
+                sc.spawn(move || loop {
+                    let i = next.fetch_add(1, Ordering::SeqCst);
+                    if i >= n {
+                        break;
+                    }
+                    let r = f(i, &dir);
+                    out.lock().unwrap().push((i, r));
+                });
+            }
+        });
+        let mut v = out.into_inner().unwrap();
+        v.sort_by_key(|(i, _)| *i);
+        v.into_iter().map(|(_, r)| r).collect()
+    }
+    /// the one-line JSON report every bounded binary prints
+    pub fn report(evaluations: usize, per_family: std::collections::BTreeMap<String, usize>, samples: Vec<String>, failures: Vec<(usize, String, String, String, String)>) {
+        // failures: (index, signature, input, why, got)
+        let mut signatures: std::collections::BTreeMap<String, usize> = Default::default();
+        for f in &failures {
+            *signatures.entry(f.1.clone()).or_default() += 1;
+        }
+        let mut seen: std::collections::BTreeMap<String, usize> = Default::default();
+        let shown: Vec<serde_json::Value> = failures
+            .iter()
+            .filter(|f| {
+                let c = seen.entry(f.1.clone()).or_default();
+                *c += 1;
+                *c <= 2
+            })
+            .take(60)
+            .map(|f| serde_json::json!({"signature": f.1, "family": "projects", "index": f.0, "graphql": f.2, "definition": "(project)", "why": f.3, "got": f.4}))
+            .collect();
+        println!(
+            "{}",
+            serde_json::json!({"evaluations": evaluations, "distinct_nontrivial": evaluations, "per_family": per_family, "samples": samples,
+                "failure_count": failures.len(), "signatures": signatures, "failures": shown})
+        );
+    }
+}
